@@ -804,6 +804,44 @@ fn unwritable_stderr(ctx: &mut Ctx, global: &mut u64) {
     }
     let exe = crate::engine::repo_bin_dir().join("find");
     // (arguments, expected exit status if it is determined)
+    // (not a diagnostics-to-/dev/full case, but the same runner fits:) a starting-point list that can be
+    // opened but not read — a directory — must be refused, not retried for ever
+    for (args, stdin_dir) in [(&["-files0-from", "t"][..], false), (&["-files0-from", "-"][..], true), (&["-files0-from", "t", "-print"][..], false)] {
+        *global += 1;
+        if !ctx.mine(*global) {
+            continue;
+        }
+        let stdin = if stdin_dir { std::fs::File::open(sbx.join("t")).map(Stdio::from).unwrap_or(Stdio::null()) } else { Stdio::null() };
+        let child = Command::new(&exe).args(args).current_dir(&sbx).env_clear().stdin(stdin).stdout(Stdio::null()).stderr(Stdio::piped()).spawn();
+        let Ok(mut child) = child else {
+            ctx.rep.machinery("spawn find".into());
+            continue;
+        };
+        let t0 = std::time::Instant::now();
+        let status = loop {
+            match child.try_wait() {
+                Ok(Some(st)) => break Some(st),
+                Ok(None) if t0.elapsed().as_secs() >= 10 => {
+                    let _ = child.kill();
+                    let _ = child.wait();
+                    break None;
+                }
+                Ok(None) => std::thread::sleep(std::time::Duration::from_millis(2)),
+                Err(_) => break None,
+            }
+        };
+        ctx.rep.evaluations += 1;
+        ctx.rep.nontrivial += 1;
+        ctx.rep.count("unreadable_starting_point_list_runs", 1);
+        let ok = status.is_some_and(|st| matches!(st.code(), Some(c) if c != 0 && c != 101 && c != 134));
+        if !ok {
+            ctx.rep.violation(
+                &format!("C11 find {} on a -files0-from list that cannot be read (a directory)", if status.is_none() { "hangs (>10 s)" } else { "does not end with an ordinary non-zero status" }),
+                format!("find {:?}{}: {:?}", args, if stdin_dir { " < DIRECTORY" } else { "" }, status),
+                json!({"prop":"C11","argv":args,"files0_dir":true,"binary":true}),
+            );
+        }
+    }
     let cases: [(&[&str], Option<i32>); 12] = [
         (&["missing-root"], Some(1)),
         (&["missing-root", "t", "-maxdepth", "0"], Some(1)),
